@@ -50,6 +50,12 @@ unsigned int cfg[2];          /* MODE 2: configured concurrency (control files) 
 int lock_fails;               /* MODE 2: another qmail-send holds lock/sendmutex */
 int read_result[2];           /* MODE 2: 1 byte read, 0 EOF, -1 error */
 int in_exitasap;              /* MODE 1: TERM received, a delivery still outstanding (shutdown drain) */
+/* MODE 3 (signals are never lost; C10 "after a HUP newly listed domains apply", C15 "an ALRM makes everything due at once"):
+ * a HUP / ALRM may arrive while the daemon sleeps in select() (which then fails with EINTR) and while reread() resp. pqrun()
+ * is running (the REAL handlers sighup()/sigalrm() run).  Every such signal must be followed by a reread() / pqrun() that
+ * STARTS after it arrived, at the latest after one more select() (a signal that arrives just before select() waits for that
+ * select() to return - a delay the original design accepts; it must not be forgotten). */
+unsigned char sig_in_select[K + 1], sig_in_reread[K + 1], sig_in_pqrun[K + 1];
 
 void sym_inputs(void)
 {
@@ -57,6 +63,7 @@ void sym_inputs(void)
 #include "replay_inputs.inc"
 #else
   SYM_ARR(tape); SYM_ARR(clk); SYM_ARR(wpass); SYM_ARR(wclean); SYM_ARR(spawnbyte); SYM_ARR(cfg); SYM(lock_fails); SYM_ARR(read_result); SYM(in_exitasap);
+  SYM_ARR(sig_in_select); SYM_ARR(sig_in_reread); SYM_ARR(sig_in_pqrun);
 #endif
 }
 
@@ -127,6 +134,7 @@ time_t vf_time(time_t *t)
 
 static unsigned int nselect;
 static int blocked_once, woke_after_block;
+static int hup_unserved, hup_selects, alrm_unserved, alrm_selects;
 
 /* ---------------- daemon system calls */
 static struct dirent dent_;
@@ -234,6 +242,19 @@ int vf_select(int nfds, fd_set *rfds, fd_set *wfds, fd_set *efds, struct timeval
     PATH_END();
   }
 #endif
+#if MODE == 3
+  {
+    unsigned char sg = sig_in_select[nselect <= K ? nselect : 0];
+    if (hup_unserved) { CHECK(hup_selects == 0, "C10: a HUP is never forgotten - reread() starts after it, at the latest after one more select()"); ++hup_selects; }
+    if (alrm_unserved) { CHECK(alrm_selects == 0, "C15: an ALRM is never forgotten - pqrun() starts after it, at the latest after one more select()"); ++alrm_selects; }
+    if (nselect > K) { WITNESS("signals_bound_reached"); PATH_END(); }
+    if (sg & 1) { sighup(); if (!hup_unserved) { hup_unserved = 1; hup_selects = 0; } }
+    if (sg & 2) { sigalrm(); if (!alrm_unserved) { alrm_unserved = 1; alrm_selects = 0; } }
+    FD_ZERO(rfds);
+    if (sg & 3) { errno = EINTR; return -1; }
+    return 0;
+  }
+#endif
   if (nselect > K) { PATH_END(); }
   sel_trigger = (cur_rfd >= 0 && cur_rfd < nfds && FD_ISSET(cur_rfd, rfds));
 #if MODE == 0
@@ -310,7 +331,27 @@ void cleanup_selprep(datetime_sec *wakeup)
 #endif
 }
 void comm_do(fd_set *w) {} void del_do(fd_set *r) {} void pass_do(void) {} void cleanup_do(void) {}
+#if MODE == 3
+static unsigned int n_reread, n_pqrun;
+void reread(void)
+{
+  hup_unserved = 0; hup_selects = 0;                    /* this reading starts now: it sees every edit made before the HUP */
+  if (n_reread < K + 1 && sig_in_reread[n_reread]) {    /* ... and a further HUP arrives while it is still running */
+    sighup(); hup_unserved = 1; hup_selects = 0;
+    WITNESS("hup_during_reread");
+  }
+  ++n_reread;
+}
+void pqrun(void)
+{
+  alrm_unserved = 0; alrm_selects = 0;
+  if (n_pqrun < K + 1 && sig_in_pqrun[n_pqrun]) { sigalrm(); alrm_unserved = 1; alrm_selects = 0; WITNESS("alrm_during_pqrun"); }
+  ++n_pqrun;
+}
+void pqfinish(void) {}
+#else
 void pqrun(void) {} void reread(void) {} void pqfinish(void) {}
+#endif
 int del_canexit(void) { return 0; }   /* a delivery is outstanding: TERM does not end the loop (shutdown drain) */
 /* qsutil.c */
 void log1(char *a) {} void qslog2(char *a, char *b) {} void log3(char *a, char *b, char *c) {}
